@@ -9,7 +9,15 @@ let handle (line : string) : string =
   match String.split_on_char ' ' line with
   | ["d32"; w] ->
       (match RV32.decode32 (z_of_string w) with
-       | Some i -> let (n, ops) = RV32.name_ops i in string_of_cl n ^ " " ^ show_ops ops
+       | Some i -> let (n, ops) = RV32.name_ops i in String.trim (string_of_cl n ^ " " ^ show_ops ops)
+       | None -> "none")
+  | ["d16"; h] ->
+      (match RVC.decode16 (z_of_string h) with
+       | Some c -> let (n, ops) = RVC.name_ops16 c in String.trim (string_of_cl n ^ " " ^ show_ops ops)
+       | None -> "none")
+  | ["x16"; h] ->
+      (match RVC.decode16 (z_of_string h) with
+       | Some c -> let (n, ops) = RV32.name_ops (RVC.expand_c c) in String.trim (string_of_cl n ^ " " ^ show_ops ops)
        | None -> "none")
   | _ -> Bbspec_ext.handle line
 
